@@ -66,6 +66,14 @@ def run(ctx):
             E2 = rng.choice(WEXPR)
             op = rng.choice(["==", "!=", "<", ">", "<=", ">="])
             cases.append(("infix", PP, [PP, "%s (%s %s %s)" % (PP, E, op, E2)]))
+    # `let` whose whole body is one literal: numbers, sequences, plain strings - and strings with directives, which
+    # take what they render from the stack (of the let's own sub-expression context)
+    LITS = ['"%s"', '"%d-%s"', '"%( dup add %)"', '"<%( drop 1 %)>"', '"plain"', '"%%"', "7", "[]", "0x10", '"%x%o"', '"%( %)"', 'r"%s"', '"%s"\\ "-%s"']
+    for P in PRODUCERS:
+        for E in LITS:
+            cases.append(("let", P, [P, "%s let V9 := %s;" % (P, E)]))
+            cases.append(("let", P, ["%s 5" % P, "%s let V9 := %s; 5" % (P, E)]))
+            cases.append(("subx", P, [P, "%s ?(%s)" % (P, E), "%s !(%s)" % (P, E)]))
     # assertion words whose evaluation itself can fail (malformed patterns): neither form may hold
     unmodelled = set()
     PATS = ['"b"', '"^a.c$"', '"a("', '"[a"', '"a{2"', '"a\\\\"', '"(a|"', '"*a"']
@@ -158,6 +166,17 @@ def run(ctx):
              ("location list element", "entry @AT_location", os.path.join(T, "bitcount.o")),
              ("symbol", "symbol", os.path.join(T, "y.o")), ("tag constant", "entry label", os.path.join(T, "a1.out")),
              ("form constant", "entry attribute form", os.path.join(T, "a1.out")), ("address set", "entry @AT_location address", os.path.join(T, "bitcount.o"))]
+    # location expressions in which an operation occurs once, twice, three times (and not at all)
+    from vlib.dwgen import Attr as _A, Die as _D, Unit as _U, Forest as _F, write_object as _wo
+    from vlib import dwforest as _dwf
+    exprs = [[("DW_OP_reg3",), ("DW_OP_piece", 8), ("DW_OP_reg4",), ("DW_OP_piece", 8)], [("DW_OP_lit1",), ("DW_OP_lit1",), ("DW_OP_plus",)],
+             [("DW_OP_lit1",), ("DW_OP_lit1",), ("DW_OP_lit1",), ("DW_OP_plus",), ("DW_OP_plus",)], [("DW_OP_dup",), ("DW_OP_dup",), ("DW_OP_dup",), ("DW_OP_drop",)],
+             [("DW_OP_breg5", 0), ("DW_OP_breg5", 8), ("DW_OP_plus",)], [("DW_OP_fbreg", -8)], [("DW_OP_piece", 4)], []]
+    lroot = _D("DW_TAG_compile_unit", [_A("DW_AT_name", "DW_FORM_string", b"repeats")],
+               [_D("DW_TAG_variable", [_A("DW_AT_name", "DW_FORM_string", b"r%d" % k), _A("DW_AT_location", "DW_FORM_exprloc", e)]) for k, e in enumerate(exprs)], flag=True)
+    rep_path = os.path.join(_dwf.workdir(ctx), "repeats.o")
+    _wo(_F([_U(lroot, 4)]), rep_path)
+    rep_words = sorted(w for w in vpairs if w in {sp + n for sp in ("?OP_", "?DW_OP_") for n in ("reg3", "piece", "lit1", "plus", "dup", "drop", "breg5", "fbreg", "reg4", "deref")})
     if quick:
         vsel = [w for k, w in enumerate(vpairs) if k % 3 == ctx.seed % 3 or not w.startswith(("?DW_", "?AT_", "?TAG_", "?FORM_", "?OP_", "?DW"))] + \
                [w for w in vpairs if w.startswith(("?DW_OP_", "?OP_"))][::2]
@@ -165,10 +184,10 @@ def run(ctx):
     else:
         vsel = vpairs
     vq, vmeta = [], []
-    for what, base, f in BASES:
+    for what, base, f in BASES + [("location list element (operations repeated)", "entry @AT_location", rep_path), ("location operation", "entry @AT_location elem", rep_path)]:
         if not os.path.exists(f):
             continue
-        for w in vsel:
+        for w in (rep_words if f == rep_path else vsel):
             vq.append(zw.enc("[%s] length" % base, dw=f))
             vq.append(zw.enc("[%s %s] length" % (base, w), dw=f))
             vq.append(zw.enc("[%s !%s] length" % (base, w[1:]), dw=f))
@@ -177,6 +196,10 @@ def run(ctx):
     vpairs_run = 0
     for k, (what, base, f, w) in enumerate(vmeta):
         rb, ry, rn = vr[3 * k], vr[3 * k + 1], vr[3 * k + 2]
+        if rb.ok() and (ry.crash or rn.crash) and "timeout" not in str(ry.crash or rn.crash):
+            bad("`%s` / `!%s` on the values of `%s` (%s) kills the library: %s" % (w, w[1:], base, os.path.basename(f), ry.crash or rn.crash),
+                {"query": "%s %s" % (base, w), "neg": "%s !%s" % (base, w[1:]), "producer": base, "file": f})
+            continue
         if not (rb.ok() and ry.ok() and rn.ok() and rb.results and ry.results and rn.results):
             continue
         nb, ny, nn = (int(r.results[0][0]["v"]) for r in (rb, ry, rn))
